@@ -987,7 +987,6 @@ func freeVarIsParamCell(h *ssa.Function, fv *ssa.FreeVar) bool {
 	return res
 }
 
-
 // c12MatchTable: remediation.MatchVuln, as a boolean function of its atomic tests, equals
 //
 //	considered ⇔ ¬ignored(ID or alias) ∧ (DevDeps ∨ ¬DevOnly) ∧ severity ≥ MinSeverity ∧ depth ≤ MaxDepth
